@@ -199,6 +199,10 @@ func (d deviation) mutator(p *ref.Peer, r *mon.RNG, pki *tlsPKI) func(step strin
 			return append(out, def...)
 		case "prepend-appdata":
 			return append([]ref.Item{{RecType: ref.RecAppData, Data: []byte("GET / HTTP/1.0\r\n\r\n")}}, def...)
+		case "prepend-empty-record-of-type":
+			// a record of the given content type with NO content in front of the step's own records: application data has no
+			// place in a handshake however little of it there is, and an empty alert or CCS is malformed
+			return append([]ref.Item{{RecType: byte(d.arg), Data: []byte{}}}, def...)
 		case "prepend-unknown-rectype":
 			return append([]ref.Item{{RecType: byte(d.arg), Data: []byte{1, 2, 3}}}, def...)
 		case "replace-sslv2":
@@ -609,6 +613,9 @@ func runC15(c *Ctx) {
 			add("prepend-warnings", 6, 0)
 			add("prepend-warnings", 20, 0)
 			add("prepend-appdata", 0, 0)
+			for _, rt := range []int{int(ref.RecAppData), int(ref.RecAlert), int(ref.RecCCS)} {
+				add("prepend-empty-record-of-type", rt, 0)
+			}
 			add("prepend-unknown-rectype", 24, 0)
 			add("prepend-unknown-rectype", 0, 0)
 			add("prepend-unknown-rectype", 255, 0)
@@ -790,6 +797,7 @@ func runC15(c *Ctx) {
 	runC15Blind(c, pki)
 	runC15Renegotiation(c, pki)
 	runC15Dial(c, pki)
+	runC15ResumeUnoffered(c, pki)
 }
 
 func verClass(v int) string {
